@@ -13,7 +13,7 @@ import itertools
 from typing import Any, Dict, List
 
 PROPERTY = "C16"
-MAPPED = ["linear:F_nobias", "linear:F_bias_pos", "linear:F_bias_kw", "linear:F_weight_kw", "linear:nn", "matmul:param", "gelu:F", "gelu:F_tanh",
+MAPPED = ["linear:F_nobias", "linear:F_bias_pos", "linear:F_bias_kw", "linear:F_weight_kw", "linear:F_all_kw", "sdpa:all_kw", "gelu:F_kw", "linear:nn", "matmul:param", "gelu:F", "gelu:F_tanh",
           "gelu:nn", "silu:F", "softmax:F", "softmax:F_pos", "softmax:nn", "dropout:F_p0", "dropout:F_eval", "dropout:F_eval_pos", "layer_norm:F",
           "layer_norm:F_affine", "layer_norm:nn", "conv1d:F", "sdpa:plain", "sdpa:causal_kw", "sdpa:mask_pos", "sdpa:mask_kw"]
 UNMAPPED = ["tanh", "relu", "mul_scalar", "reshape", "rotate_half", "gate_softmax"]
@@ -62,7 +62,8 @@ def _progs(tier: str) -> List[Dict[str, Any]]:
         if len(items) == 2:
             add(items, FIRSTS[n % 4], SINKS[n % 3])
     # ---- residual block shapes
-    body = ["linear:F_bias_kw", "gelu:F", "softmax:F", "sdpa:causal_kw", "tanh", "layer_norm:nn", "gate_softmax"]
+    body = ["linear:F_bias_kw", "gelu:F", "softmax:F", "sdpa:causal_kw", "tanh", "layer_norm:nn", "gate_softmax",
+            "linear:F_all_kw", "sdpa:all_kw", "gelu:F_kw"]  # (the last three: every tensor operand passed by keyword)
     for order in ("skip_first", "branch_first"):
         for a in body + ["linear:nn", "add_param", "mul_scalar"]:
             for first in FIRSTS:
